@@ -56,7 +56,7 @@ package kvindex
 // transaction decides atomicity).
 //@ func (*KVIndex).AddDocTx
 //@   vars idx tx docID doc sdoc docKey field p x term t entryKey err termKey count buf data err
-//@   property C09 C03
+//@   property C09 C03 C16
 //@   option prelude=keys,kv,idxkeys,ieee,json
 //@   option load=kvi
 //@   option globals=kvindex
@@ -79,6 +79,10 @@ package kvindex
 //@   ensures indexedn: result == nil ==> (forall f:Str :: has(idx.Fields, f) && isANum(mapdig(doc, idx.Fields[f])) ==>
 //@       kvhas(entryKeyOf(f, 2, be64(f64bits(anum(mapdig(doc, idx.Fields[f])))), docID)))
 //@   ensures dockey: result == nil ==> kvhas(docKeyOf(docID))
+// a document whose value at an indexed field cannot be indexed (not a string, not a number) is
+// refused: accepting it without an entry would make the index differ from a scan of the documents
+//@   loop 1 invariant typed: forall f:Str :: visited(f) && !isANil(mapdig(doc, idx.Fields[f])) ==> isAStr(mapdig(doc, idx.Fields[f])) || isANum(mapdig(doc, idx.Fields[f]))
+//@   ensures typed: result == nil ==> (forall f:Str :: has(idx.Fields, f) && !isANil(mapdig(doc, idx.Fields[f])) ==> isAStr(mapdig(doc, idx.Fields[f])) || isANum(mapdig(doc, idx.Fields[f])))
 // replacement (C09: "document insertion, replacement and removal"): an entry this
 // document had under a term it no longer has must not survive. KNOWN FINDING: AddDocTx
 // only adds (see 'grows' above), so a re-added document keeps its old entries.
